@@ -71,6 +71,10 @@ func (b *Builder) Insert(key []byte, value uint64) error {
 	if len(key) > 65535 {
 		return fmt.Errorf("key too long: %d bytes (max 65535)", len(key))
 	}
+	if intWidth(value) > intWidth(b.FileSize) {
+		// values are stored in as many bytes as the declared file size needs: a wider value would be cut
+		return fmt.Errorf("value %d does not fit the offset width for file size %d", value, b.FileSize)
+	}
 	return b.buckets[b.Header.BucketHash(key)].writeTuple(key, value)
 }
 
